@@ -46,6 +46,29 @@ def col? : Sexp → Option Column
     some ⟨n, k, dv, cs⟩
   | _ => none
 
+def layout? : Sexp → Option Layout
+  | .atom "native" => some .native
+  | .atom "swapped" => some .swapped
+  | .atom "strided" => some .strided
+  | .atom "reversed" => some .reversed
+  | .atom "fortran" => some .fortran
+  | .atom "readonly" => some .readonly
+  | .atom "window" => some .window
+  | .atom "unaligned" => some .unaligned
+  | .atom "swapstrided" => some .swapstrided
+  | .atom "fitslike" => some .fitslike
+  | .atom "bcast" => some .bcast
+  | .atom "bytes" => some .bytes
+  | .atom "object" => some .object
+  | .atom "wide" => some .wide
+  | _ => none
+
+/-- a column with its storage layout tag (older cases carry none: native) -/
+def scol? : Sexp → Option StoredColumn
+  | .list [name, kind, der, cells, lay] => do
+    some ⟨← col? (.list [name, kind, der, cells]), ← layout? lay⟩
+  | e => do some ⟨← col? e, .native⟩
+
 def optBools? : Sexp → Option (Option (List Bool))
   | .atom "N" => some none
   | e => e.toBools?.map some
@@ -91,12 +114,17 @@ def out? (e : Sexp) : Option (List LData) := do (← e.toList?).mapM ldata?
 
 structure Case where
   fmt : Format
-  d : Dataset
+  s : StoredDataset
   sel : Option (List Bool)
   comps : Option (List Nat)
 
+def Case.d (c : Case) : Dataset := c.s.values
+
 def case? (fmt shape cols sel comps : Sexp) : Option Case := do
-  some ⟨← fmt? fmt, ⟨← shape.toNats?, ← (← cols.toList?).mapM col?⟩, ← optBools? sel, ← optNats? comps⟩
+  some ⟨← fmt? fmt, ⟨← shape.toNats?, ← (← cols.toList?).mapM scol?⟩, ← optBools? sel, ← optNats? comps⟩
+
+def laid (c : Case) : String :=
+  if c.s.cols.all fun x => x.layout == .native then "" else "-laid"
 
 def branch (c : Case) (inQ inP : Bool) (r : Except Err (List LData)) : String :=
   let mode := match c.sel with
@@ -111,24 +139,83 @@ def branch (c : Case) (inQ inP : Bool) (r : Except Err (List LData)) : String :=
   let extra := match r with
     | .error e => "-" ++ errName e
     | .ok _ => if flipped then "-kindflip" else ""
-  fmtName c.fmt ++ "-" ++ mode ++ "-" ++ dom ++ extra
+  fmtName c.fmt ++ "-" ++ mode ++ "-" ++ dom ++ extra ++ laid c
 
 /-- impl / ok / implok / p / br for one export + load. The Spec is vacuous outside the property's
 quantifier; there only comparison (a) (model fidelity) is meaningful. -/
 def judge (c : Case) (pyout : Sexp) (extraOk : Bool) (wrap : Sexp → Sexp) : String :=
-  let inQ := inQuantifier c.fmt c.d c.sel c.comps
-  let inP := inDomain c.fmt c.d c.sel c.comps
-  let r := roundTrip c.fmt c.d c.sel c.comps
+  let inQ := inQuantifierStored c.fmt c.s c.sel c.comps
+  let inP := inDomainStored c.fmt c.s c.sel c.comps
+  let r := roundTripStored c.fmt c.s c.sel c.comps
   let br := branch c inQ inP r
   let ok := !inQ || (extraOk && match pyout with
     | .list [.atom "ok", po] => (match out? po with
-      | some lo => specOk c.fmt c.d c.sel c.comps lo
+      | some lo => specOkStored c.fmt c.s c.sel c.comps lo
       | none => false)
     | _ => false)   -- a loud failure (or garbage) inside the quantifier is a violation
   match r with
   | .error e => driverResult (wrap (.atom (errName e))) ok (!inQ) inP br
   | .ok o =>
-    driverResult (wrap (.list [.atom "ok", outSx o])) ok (!inQ || specOk c.fmt c.d c.sel c.comps o) inP br
+    driverResult (wrap (.list [.atom "ok", outSx o])) ok (!inQ || specOkStored c.fmt c.s c.sel c.comps o) inP br
+
+def kindSx : Kind → Sexp
+  | .float => .atom "f"
+  | .str => .atom "s"
+  | .int b => .list [.atom "i", ofNat b]
+  | .uint b => .list [.atom "u", ofNat b]
+
+def resSx : Except Err (List LData) → Sexp
+  | .error e => .atom (errName e)
+  | .ok o => .list [.atom "ok", outSx o]
+
+/-- Spec verdict on one hop's python output; vacuous outside the quantifier. -/
+def hopOk (inQ : Bool) (spec : List LData → Bool) (py : Sexp) : Bool :=
+  !inQ || match py with
+    | .list [.atom "ok", po] => (match out? po with
+      | some lo => spec lo
+      | none => false)
+    | _ => false
+
+/-- `export A → load → export B (whole / subset / filter of the LOADED dataset) → load`.
+Hop 1 is judged against the generated dataset; hop 2 against the dataset python actually loaded
+(its values as python reported them, with the dtype kinds the first reader chose). -/
+def judgeChain (c1 : Case) (fB : Format) (sel : Option (List Bool)) (comps : Option (List Nat))
+    (pyout : Sexp) : String :=
+  let inQ1 := inQuantifierStored c1.fmt c1.s none none
+  let inP1 := inDomainStored c1.fmt c1.s none none
+  let r1 := roundTripStored c1.fmt c1.s none none
+  let brA := fmtName c1.fmt ++ "-to-" ++ fmtName fB
+  let wrap3 (a b c : Sexp) : Sexp := .list [.atom "chain", a, b, c]
+  match pyout with
+  | .list [.atom "chain", h1, ks, h2] =>
+    let ok1 := hopOk inQ1 (specOkStored c1.fmt c1.s none none) h1
+    let py1 : Option (List LData) := match h1 with
+      | .list [.atom "ok", po] => out? po
+      | _ => none
+    let kinds : Option (List Kind) := do (← ks.toList?).mapM kind?
+    match r1, py1, kinds with
+    | .ok o1, some p1, some kinds =>
+      match secondHop fB p1 kinds sel comps with
+      | some (d1, r2) =>
+        let inQ2 := inQuantifier fB d1 sel comps
+        let inP2 := inDomain fB d1 sel comps
+        let ok2 := hopOk inQ2 (specOk fB d1 sel comps) h2
+        let implok1 := !inQ1 || specOkStored c1.fmt c1.s none none o1
+        let implok2 := !inQ2 || (match r2 with
+          | .ok o2 => specOk fB d1 sel comps o2
+          | .error _ => false)
+        let dom := if inP1 && inP2 then "P" else if inQ1 && inQ2 then "finding" else "outside"
+        driverResult (wrap3 (resSx (.ok o1)) (.list (kinds.map kindSx)) (resSx r2)) (ok1 && ok2)
+          (implok1 && implok2) (inP1 && inP2) (brA ++ "-" ++ dom)
+      | none =>   -- python loaded nothing at hop 1
+        driverResult (wrap3 (resSx (.ok o1)) (.atom "N") (.atom "N")) (ok1 && !inQ1) true false (brA ++ "-nothing")
+    | .ok o1, _, _ =>
+      driverResult (wrap3 (resSx (.ok o1)) (.atom "N") (.atom "N")) ok1 true false (brA ++ "-hop1-mismatch")
+    | .error e, _, _ =>
+      driverResult (wrap3 (.atom (errName e)) (.atom "N") (.atom "N")) ok1 (!inQ1) inP1 (brA ++ "-" ++ errName e)
+  | _ =>
+    -- a loud failure somewhere in the chain: a violation when the first hop is in the quantifier
+    driverResult (wrap3 (resSx r1) (.atom "N") (.atom "N")) (!inQ1) true false (brA ++ "-failed")
 
 def step (line : String) : String :=
   match Sexp.parse line with
@@ -145,6 +232,10 @@ def step (line : String) : String :=
         judge c2 inner (inl == .atom "F") fun x => .list [.atom "sess", .atom "F", x]
       | other => judge c2 other false fun x => .list [.atom "sess", .atom "F", x]
     | _, _ => bad "sess-args"
+  | some (.list [.atom "chain", .list [fa, shape, cols, fb, sel, comps], pyout]) =>
+    match case? fa shape cols (.atom "N") (.atom "N"), fmt? fb, optBools? sel, optNats? comps with
+    | some c1, some fB, some sel, some comps => judgeChain c1 fB sel comps pyout
+    | _, _, _, _ => bad "chain-args"
   | some (.list [.atom "reg", _, pyout]) =>
     -- every registered exporter must be one the model knows (and maps to a format)
     let known : Sexp := .list (knownExporters.map fun p => .atom p.1)
@@ -160,7 +251,7 @@ def step (line : String) : String :=
       driverResult impl (pyout == impl) true true (if (parseNum t).isSome then "numeric" else "text")
     | none => bad "pnum-args"
   | some (.list [.atom fam, .list [fmt, shape, cols, sel, comps], pyout]) =>
-    if fam == "tab" || fam == "img" then
+    if fam == "tab" || fam == "img" || fam == "lay" then
       match case? fmt shape cols sel comps with
       | some c => judge c pyout true id
       | none => bad "case-args"
